@@ -158,9 +158,21 @@ def run(chk):
             ia = cs.p3(a, pos, d, ALL)
             ib = cs.p3(b, pos, d, ALL)
             plan.append((ia, ib, wj))
+    # area features with depths given at points: the global min/max pre-test is sound only if its extrema contain every
+    # nodal value of the triangulation (the hypothesis of theorem C07_pretest); checked on the implementation's own data
+    cs_area = CaseSet("c07area")
+    nsurf = 0
+    for wi in range(25 if quick else 300):
+        wj, sph2 = area_world(rng, nfeat=rng.randint(1, 3), plumes=0.0, cross=False)
+        cs_area.add_world(wj)
+        nsurf += 1
     impl, _ = cs.run(model=False)
-    chk.evaluations = len(impl)
+    chk.evaluations = len(impl) + nsurf
     viol = []
+    for (wj, key, mn, mx, lo, hi) in cs_area.surface_bounds[:3]:
+        viol.append(("the extrema of the depth pre-test [%g, %g] of %s do not contain the nodal values [%g, %g]: the shortcut rejects depths the local surface accepts" % (mn, mx, key, lo, hi),
+                     {"kind": "world", "world": wj, "surface": key, "reported": [mn, mx], "nodal": [lo, hi], "probe_line": "surfaces 0"}))
+    cs_area.cleanup()
     seen_worlds = set()
     for ia, ib, wj in plan:
         vb = common.parse_vec(impl[ib])
